@@ -27,7 +27,10 @@ StopIdx(s, stop) == IF stop = NoneInt THEN Len(s) ELSE stop
 (* Argument checks: the request is refused with ValueError                 *)
 (***************************************************************************)
 Rejects(w, op) ==
+    \* the range is converted per series (ratio bounds refer to each series' own span): the request is refused when it is
+    \* empty or inverted for the working series or for the reference series
     CASE op.k = "truncate_value" -> TruncRejects(w.x, op.left, op.right, op.lr, op.rr)
+                                    \/ (Len(w.rx) >= 1 /\ TruncRejects(w.rx, op.left, op.right, op.lr, op.rr))
       [] op.k \in {"truncate_index", "slice_index"} -> op.start < 0 \/ (op.stop # NoneInt /\ op.stop > Len(w.x))
       [] op.k = "slice_value" -> (op.start # None /\ \A i \in 1..Len(w.x) : w.x[i] # op.start)
                                  \/ (op.stop # None /\ \A i \in 1..Len(w.x) : w.x[i] # op.stop)
@@ -51,7 +54,6 @@ OutOfScope(w, op) ==
                                                         \/ Len(SliceSeq(w.rx, op.start, StopIdx(w.x, op.stop), 1)) < 2)
       [] op.k = "truncate_value" -> ~Rejects(w, op) /\
                                     (\/ Len(w.rx) < 2
-                                     \/ TruncRejects(w.rx, op.left, op.right, op.lr, op.rr)
                                      \/ LET r == TruncRange(w.x, op.left, op.right, op.lr, op.rr) IN r[2] - r[1] < 2
                                      \/ LET r == TruncRange(w.rx, op.left, op.right, op.lr, op.rr) IN r[2] - r[1] < 2)
       [] op.k = "recreate" -> Len(w.x) < 2
